@@ -65,7 +65,11 @@ def defuse_xml(xml_source: Union[str, bytes]) -> Union[str, bytes]:
             if event == pulldom.START_ELEMENT:
                 break
     except SAXParseException:
-        pass  # the purpose is to defuse not to check xml source syntax
+        # The purpose is to defuse not to check xml source syntax, but the scan stopped
+        # before the root element: another parser (e.g. libxml2, that accepts the names
+        # of XML 1.0 5th edition) could read and expand what expat refuses.
+        if ('<!ENTITY' if isinstance(xml_source, str) else b'<!ENTITY') in xml_source:
+            raise XMLResourceForbidden("Entities are forbidden") from None
     except OSError as err:
         raise ElementPathOSError(str(err))
 
